@@ -47,7 +47,7 @@ REQUIRED_CLAUSES = ["context-operator-diagonal-ascending", "presented-in-context
 TIMEOUT = {"quick": 900, "thorough": 3400}
 EPS = numpy.finfo(float).eps
 KINDS = ["Operator", "SelfAdjointOperator", "Hamiltonian", "ReducedDensityMatrix", "DensityMatrix", "TransitionDipoleMoment", "SuperOperator",
-         "LindbladTensor", "LindbladOperators", "Evolution", "EvolutionSuperOperator"]
+         "LindbladTensor", "LindbladOperators", "Evolution", "EvolutionSuperOperator", "HamiltonianJR"]
 
 
 COPY_KINDS = tuple(KINDS)
@@ -184,7 +184,7 @@ def tr_any(d, S, kind):
         return numpy.stack([dag(S) @ d[k] @ S for k in range(d.shape[0])], axis=0)
     if kind == "EvolutionSuperOperator":
         return numpy.einsum("ia,jb,tijkl,kc,ld->tabcd", numpy.conj(S), S, d, S, numpy.conj(S))
-    if kind == "LindbladOperators":
+    if kind in ("LindbladOperators", "HamiltonianJR"):
         return numpy.stack([dag(S) @ d[k] @ S for k in range(d.shape[0])], axis=0)
     return dag(S) @ d @ S
 
@@ -202,6 +202,10 @@ def present(o):
     """what the object presents now through its public attributes"""
     if o.kind == "LindbladOperators":
         return numpy.stack([numpy.array(o.obj.Km), numpy.array(o.obj.Lm), numpy.array(o.obj.Ld)], axis=0).reshape(-1, o.obj.Km.shape[1], o.obj.Km.shape[2])
+    if o.kind == "HamiltonianJR":
+        # a Hamiltonian with a remainder coupling carries two arrays that live in one basis
+        d = numpy.array(o.obj.data)
+        return numpy.stack([d, numpy.array(o.obj.JR)], axis=0)
     return numpy.array(o.obj.data)
 
 
@@ -479,6 +483,12 @@ def run_case(case, ctx):
             elif kind == "Hamiltonian":
                 d = rsym(rng, n, str(rng.choice(["generic", "degenerate"])))
                 o = qr.Hamiltonian(data=d.copy())
+            elif kind == "HamiltonianJR":
+                hd = rsym(rng, n, "generic")
+                o = qr.Hamiltonian(data=hd.copy())
+                offd = numpy.abs(hd[numpy.triu_indices(n, 1)])
+                o.remove_cutoff_coupling(float(numpy.median(offd)) * 1.0000001 + 1e-12)
+                d = numpy.stack([numpy.array(o._data, copy=True), numpy.array(o.JR, copy=True)], axis=0)
             elif kind in ("ReducedDensityMatrix", "DensityMatrix"):
                 a = rng.normal(size=(n, n)) + 1j * rng.normal(size=(n, n))
                 d = a @ a.conj().T
@@ -575,12 +585,18 @@ def run_case(case, ctx):
             if ev == "READ":
                 events.append("R:" + o.kind)
                 check_read(o, Stot, level)
-            elif ev == "WRITE" and o.kind in ("Operator", "ReducedDensityMatrix", "SuperOperator", "TransitionDipoleMoment") and o.protected_S is None:
+            elif ev == "WRITE" and o.kind in ("Operator", "ReducedDensityMatrix", "SuperOperator", "TransitionDipoleMoment", "HamiltonianJR") and o.protected_S is None:
+                # the assignment may be the first touch of the object in this context (no read before it)
                 events.append("W:" + o.kind)
                 cur = expected(o, Stot)
-                new = cur * 0.5 + (0.1 if o.kind != "ReducedDensityMatrix" else 0.0)
+                new = cur * 0.5 + (0.1 if o.kind not in ("ReducedDensityMatrix", "HamiltonianJR") else 0.0)
                 with ctx.lib("writing managed data", mechanism=None, expect=Boom):
-                    o.obj.data = new.copy()
+                    if o.kind == "HamiltonianJR":
+                        # only the Hamiltonian matrix is assigned; the remainder coupling stays what it is
+                        o.obj.data = numpy.real_if_close(new[0]).copy()
+                        new = numpy.stack([new[0], cur[1]], axis=0)
+                    else:
+                        o.obj.data = new.copy()
                 o.ref = tr_any(new, dag(Stot), o.kind)
                 check_read(o, Stot, level)
             elif ev == "CREATE":
